@@ -1,1 +1,7 @@
 // hook file for ntp-proto/src/keyset.rs: declares the per-property harness modules
+#[cfg(any(verif_all, verif_c26))]
+#[path = "/verif/harness/ntp-proto/c26.rs"]
+mod c26;
+#[cfg(any(verif_all, verif_c27))]
+#[path = "/verif/harness/ntp-proto/c27.rs"]
+mod c27;
